@@ -20,7 +20,8 @@ RULE = ("A case is 2..3 scenario programs (constructor arguments incl. default-c
         "run must equal its solo run exactly (solo runs happen in the same process, before). xproc: batches of cases "
         "are executed in fresh interpreters under PYTHONHASHSEED 0, 1 and random, solo and interleaved, and the "
         "sha256 digests of the canonical traces (floats as hex) must agree with each other and with the in-process "
-        "run. Contexts on a small grid with duplicated columns make equal-gain tree splits (where random_state "
+        "run. hashseed: programs with str arms only and tie-prone warm starts (1-2 features from {-1,1,2}), solo, in three "
+        "interpreters. Contexts on a small grid with duplicated columns make equal-gain tree splits (where random_state "
         "decides) frequent. Non-trivial: two bandits alive at once with different seeds and a training or randomised "
         "step of one executed after the construction of the other.")
 ASSUMPTIONS = [
